@@ -30,13 +30,9 @@ package lnwallet
 // resolvers themselves (stated in the evidence).
 
 import (
-	"bytes"
-	"crypto/sha256"
-	"encoding/hex"
 	"fmt"
 	"testing"
 
-	"github.com/btcsuite/btcd/chainhash/v2"
 	"github.com/btcsuite/btcd/txscript/v2"
 	"github.com/btcsuite/btcd/wire/v2"
 	"github.com/lightningnetwork/lnd/chainntnfs"
@@ -46,19 +42,9 @@ import (
 	"github.com/lightningnetwork/lnd/lntypes"
 )
 
-// to_self_delay of party 0 / party 1 as fixed by the engine's constructor
-// (mkCfg(aliceKeys, ..., 5), mkCfg(bobKeys, ..., 4)). Used for the negative
-// controls so that they do not depend on any value lnd reports.
-var verifC05Csv = [2]uint32{5, 4}
-
 // verifC05ValueIsVerdict: the value/completeness clause (statement: "the value
 // claimable equals its balance plus HTLCs due to it up to fees and dust").
 const verifC05ValueIsVerdict = true
-
-const (
-	verifC05LeaseExpiry = 1000 // ThawHeight set by the engine for lease channels
-	verifC05Height      = 500  // "confirmation height" handed to lnd
-)
 
 type verifC05Run struct {
 	e  *verifE1
@@ -66,78 +52,6 @@ type verifC05Run struct {
 	t  testing.TB
 
 	afterReload bool // a reconnect/reload happened right before this check
-	closes      int
-}
-
-// ---------------------------------------------------------------------------
-// transaction construction (mirror of sweep/txgenerator.go createSweepTx)
-
-var verifC05WalletOut = &wire.TxOut{
-	Value: 250000,
-	PkScript: append([]byte{txscript.OP_0, 20},
-		bytes.Repeat([]byte{0x42}, 20)...),
-}
-
-var verifC05WalletOp = wire.OutPoint{
-	Hash:  chainhash.Hash{0x77, 0x01, 0x02, 0x03},
-	Index: 3,
-}
-
-func verifC05TxHex(tx *wire.MsgTx) string {
-	var b bytes.Buffer
-	if err := tx.Serialize(&b); err != nil {
-		return "?"
-	}
-	s := hex.EncodeToString(b.Bytes())
-	if len(s) > 1600 {
-		s = s[:1600] + "..."
-	}
-	return s
-}
-
-// verifC05Spend builds the sweep transaction for one input, lets lnd craft the
-// input script and runs input 0 through the interpreter against realPrev.
-// withWallet adds a second (wallet) input and a change output, as the sweeper
-// does for SINGLE|ANYONECANPAY second-level inputs.
-func verifC05Spend(signer input.Signer, inp input.Input, realPrev *wire.TxOut,
-	withWallet bool) (*wire.MsgTx, error, error) {
-
-	tx := wire.NewMsgTx(2)
-	tx.AddTxIn(&wire.TxIn{
-		PreviousOutPoint: inp.OutPoint(),
-		Sequence:         inp.BlocksToMaturity(),
-	})
-	if req := inp.RequiredTxOut(); req != nil {
-		tx.AddTxOut(req)
-	}
-	signFetcher := txscript.NewMultiPrevOutFetcher(nil)
-	signFetcher.AddPrevOut(inp.OutPoint(), inp.SignDesc().Output)
-	realFetcher := txscript.NewMultiPrevOutFetcher(nil)
-	realFetcher.AddPrevOut(inp.OutPoint(), realPrev)
-	if withWallet {
-		tx.AddTxIn(&wire.TxIn{PreviousOutPoint: verifC05WalletOp})
-		signFetcher.AddPrevOut(verifC05WalletOp, verifC05WalletOut)
-		realFetcher.AddPrevOut(verifC05WalletOp, verifC05WalletOut)
-	}
-	change := realPrev.Value
-	if inp.RequiredTxOut() != nil || withWallet {
-		change = verifC05WalletOut.Value - 1000
-	}
-	tx.AddTxOut(&wire.TxOut{Value: change, PkScript: verifC05WalletOut.PkScript})
-	tx.LockTime = verifC05Height + 20
-	if lt, ok := inp.RequiredLockTime(); ok {
-		tx.LockTime = lt
-	}
-	hc := txscript.NewTxSigHashes(tx, signFetcher)
-	script, err := inp.CraftInputScript(signer, tx, hc, signFetcher, 0)
-	if err != nil {
-		return tx, fmt.Errorf("CraftInputScript: %w", err), nil
-	}
-	tx.TxIn[0].Witness = script.Witness
-	if len(script.SigScript) != 0 {
-		tx.TxIn[0].SignatureScript = script.SigScript
-	}
-	return tx, nil, verifExec(realPrev.PkScript, realPrev.Value, tx, 0, realFetcher)
 }
 
 // ---------------------------------------------------------------------------
@@ -301,23 +215,6 @@ func verifC05HtlcByOutput(htlcs []channeldb.HTLC) map[uint32]*channeldb.HTLC {
 		}
 	}
 	return m
-}
-
-// ledgerHtlc finds the ledger entry of a committed HTLC. incoming is from the
-// point of view of party i.
-func (c *verifC05Run) ledgerHtlc(i int, h *channeldb.HTLC) *verifE1Htlc {
-	off := i
-	if h.Incoming {
-		off = 1 - i
-	}
-	lh := c.e.findHtlc(off, h.HtlcIndex, h.Amt)
-	if lh == nil {
-		return nil
-	}
-	if lh.Hash != h.RHash || sha256.Sum256(lh.Preimage[:]) != lh.Hash {
-		return nil
-	}
-	return lh
 }
 
 type verifC05Claims struct {
@@ -553,7 +450,7 @@ func (c *verifC05Run) localHtlc(i int, fk *verifFork, kind string, closeTx *wire
 			fmt.Sprintf("%s: %s transaction spends output %d which is not a matching HTLC output of the commitment", kind, name, op.Index))
 		return false
 	}
-	lh := c.ledgerHtlc(i, h)
+	lh := c.e.verifC05Ledger(i, h)
 	if lh == nil {
 		c.vc.Diag("ledger_miss", fmt.Sprintf("%s htlc %d incoming=%v", kind, h.HtlcIndex, h.Incoming))
 		return true
@@ -799,7 +696,7 @@ func (c *verifC05Run) remoteClose(i int, fk *verifFork, pending bool) {
 					fmt.Sprintf("%s: incoming resolution claims output %d which is not a received HTLC of that commitment", kind, r.ClaimOutpoint.Index))
 				return
 			}
-			lh := c.ledgerHtlc(i, h)
+			lh := c.e.verifC05Ledger(i, h)
 			if lh == nil {
 				c.vc.Diag("ledger_miss", fmt.Sprintf("%s htlc %d incoming", kind, h.HtlcIndex))
 				continue
@@ -848,7 +745,7 @@ func (c *verifC05Run) remoteClose(i int, fk *verifFork, pending bool) {
 					fmt.Sprintf("%s: outgoing resolution claims output %d which is not an offered HTLC of that commitment", kind, r.ClaimOutpoint.Index))
 				return
 			}
-			lh := c.ledgerHtlc(i, h)
+			lh := c.e.verifC05Ledger(i, h)
 			if lh == nil {
 				c.vc.Diag("ledger_miss", fmt.Sprintf("%s htlc %d outgoing", kind, h.HtlcIndex))
 				continue
@@ -1035,7 +932,6 @@ func (c *verifC05Run) noteClose(i int, kind string, cl *verifC05Claims) {
 	if e.ended {
 		return
 	}
-	c.closes++
 	c.vc.Count("closes_checked", 1)
 	c.vc.Count("htlc_outputs_spent", int64(cl.nIn+cl.nOut))
 	if cl.nIn+cl.nOut == 0 {
@@ -1050,152 +946,27 @@ func (c *verifC05Run) noteClose(i int, kind string, cl *verifC05Claims) {
 		verifBucket(cl.nIn), e.nRestarts+e.nDisconnects > 0))
 }
 
-// ---------------------------------------------------------------------------
-// one check point: fork party i, all three close kinds
-
-// pendingWindow: party i signed a remote commitment that is not yet revoked
-// and the peer already holds it fully signed.
-func (e *verifE1) verifC05PendingWindow(i int) bool {
-	rc := e.parties[i].ch.commitChains.Remote
-	if !rc.hasUnackedCommitment() {
-		return false
-	}
-	return e.parties[1-i].heldTx[rc.tip().height] != nil
-}
-
-func (c *verifC05Run) checkPoint(i int) {
-	e := c.e
-	if e.ended {
-		return
-	}
-	c.vc.Count("forks", 1)
-	fk := e.fork(i, "fork_reload_error")
-	if fk == nil {
-		return
-	}
-	defer fk.Close()
-	c.remoteClose(i, fk, false)
-	if !e.ended && fk.ch.commitChains.Remote.hasUnackedCommitment() {
-		c.vc.Count("forks_with_pending_remote", 1)
-		c.remoteClose(i, fk, true)
-	}
-	if !e.ended {
-		c.localClose(i, fk)
-	}
-}
-
-func verifC05Case(vc *verifCtx, t testing.TB, i int) {
-	r := vc.Rng(i)
-	p := verifE1GenParams(r)
-	nActions := 30 + r.Intn(45)
-	cr := r.Fork("c05")
-	restartPct := 2 + cr.Intn(6)
-	checkPct := 8 + cr.Intn(10)
-	vc.Case(i, map[string]any{"params": p, "actions": nActions,
-		"restartPct": restartPct, "checkPct": checkPct})
-	e, err := verifE1New(vc, r, p)
-	if err != nil {
-		vc.Count("setup_skipped", 1)
-		vc.CaseDone(i)
-		return
-	}
-	defer e.Close()
-	e.oracles = map[string]bool{"tx_exact": false}
-	run := &verifC05Run{e: e, vc: vc, t: t}
-	maxChecks := 7
-	checks := 0
-	force := false
-	check := func(who int, reload bool) {
-		if e.ended || (checks >= maxChecks && !force) {
-			return
-		}
-		checks++
-		run.afterReload = reload
-		run.checkPoint(who)
-	}
-	for a := 0; a < nActions && !e.ended; a++ {
-		if cr.Intn(100) < restartPct {
-			who := cr.Intn(2)
-			done := false
-			if cr.Chance(1, 3) {
-				for d := 0; d < 2 && !done; d++ {
-					from := (who + d) % 2
-					if len(e.q[from]) > 0 && e.q[from][0].Kind == "sig" {
-						if e.actDeliver(from, true) {
-							e.nRestarts++
-							e.reconnect(fmt.Sprintf("restart %s (mid-handler)", e.parties[1-from].Name), false)
-							done = true
-						}
-					}
-				}
-			}
-			if !done && !e.ended {
-				if cr.Bool() {
-					e.nRestarts++
-					e.reconnect(fmt.Sprintf("restart %s", e.parties[who].Name), false)
-				} else {
-					e.nDisconnects++
-					e.reconnect("disconnect", false)
-				}
-			}
-			if cr.Chance(2, 3) {
-				check(cr.Intn(2), true)
-			}
-			continue
-		}
-		if e.step(true) == "noop" {
-			continue
-		}
-		w0, w1 := e.verifC05PendingWindow(0), e.verifC05PendingWindow(1)
-		switch {
-		case (w0 || w1) && cr.Chance(2, 5):
-			who := 0
-			if w1 && (!w0 || cr.Bool()) {
-				who = 1
-			}
-			if checks < maxChecks {
-				vc.Count("checks_in_pending_window", 1)
-			}
-			check(who, false)
-		case cr.Intn(100) < checkPct:
-			check(cr.Intn(2), false)
-		}
-	}
-	if !e.ended {
-		// leave every fated resolution pending half of the time so that the
-		// quiescent state still carries HTLCs.
-		if e.drain(cr.Bool(), nil) {
-			force = true
-			check(0, false)
-			check(1, false)
-		}
-	}
-	if e.constraintTm {
-		vc.Count("constraint_terminated", 1)
-	}
-	vc.Count("checks", int64(checks))
-	if i%40 == 0 {
-		tr := e.trace
-		if len(tr) > 60 {
-			tr = tr[:60]
-		}
-		vc.Sample(map[string]any{"case": i, "params": p, "trace_head": tr,
-			"closes_checked": run.closes, "restarts": e.nRestarts, "end": e.endReason})
-	}
-	vc.CaseDone(i)
-}
-
 func TestVerifC05(t *testing.T) {
 	vc := verifStart(t, "C05", "closes")
 	defer vc.Finish()
 	verifE1SelfCheck(t)
 	vc.Note("witness_type_selection", "mirror of contractcourt resolvers (decideWitnessType, "+
 		"htlcTimeoutResolver, htlcSuccessResolver, makeSweepInput, anchorResolver); the real resolvers are not executed in this unit")
-	total := vc.N(420, 9000)
+	total := vc.N(360, 10000)
 	for i := 0; i < total; i++ {
 		if !vc.Mine(i) {
 			continue
 		}
-		verifC05Case(vc, t, i)
+		verifC05Schedule(vc, i, func(e *verifE1, who int, fk *verifFork, afterReload bool) {
+			run := &verifC05Run{e: e, vc: vc, t: t, afterReload: afterReload}
+			run.remoteClose(who, fk, false)
+			if !e.ended && fk.ch.commitChains.Remote.hasUnackedCommitment() {
+				vc.Count("forks_with_pending_remote", 1)
+				run.remoteClose(who, fk, true)
+			}
+			if !e.ended {
+				run.localClose(who, fk)
+			}
+		})
 	}
 }
